@@ -3,6 +3,8 @@
 //! K: `check_yaml_budget` (public) and the live pump hook vs `SS.Model.{Budget,Live}`.
 //! S: threshold exactness (limit = measured usage passes, usage-1 fails with that breach), report
 //!    vs an independent counter over raw + delivered events, per-document independence.
+//!    Also: a breach the pump reports is an error of every single-document entry point; both report callbacks (fn and
+//!    closure) receive the same report; max_documents = 1 under the per-document policy.
 use crate::coq;
 use crate::ctx::Ctx;
 use crate::docgen::{self, GenCfg};
